@@ -636,13 +636,18 @@ func ruleENoByteIndex(p *Program, r *Reporter) {
 	for _, fn := range p.ReachFuncs(p.Eval) {
 		for _, b := range fn.Blocks {
 			for _, in := range b.Instrs {
-				lk, ok := in.(*ssa.Lookup)
-				if !ok {
+				var sx ssa.Value
+				switch x := in.(type) {
+				case *ssa.Lookup:
+					sx = x.X
+				case *ssa.Index:
+					sx = x.X
+				default:
 					continue
 				}
-				if bt, ok := lk.X.Type().Underlying().(*types.Basic); ok && bt.Info()&types.IsString != 0 {
+				if bt, ok := sx.Type().Underlying().(*types.Basic); ok && bt.Info()&types.IsString != 0 {
 					n++
-					r.Bad(instrPos(lk), fmt.Sprintf("%s %s[i]", p.FuncName(fn), describeAddr(lk.X)), "byte indexing of a string: positions in the language are code points")
+					r.Bad(instrPos(in), fmt.Sprintf("%s %s[i]", p.FuncName(fn), describeAddr(sx)), "byte indexing of a string: positions in the language are code points")
 				}
 			}
 		}
